@@ -169,6 +169,10 @@ func (ex *Exec) step(fr *Frame, in ssa.Instruction, st *State, cur *smt.Term) *s
 		}
 		return cur
 	case *ssa.Lookup:
+		if v, ok := ex.constMapLookup(fr, x); ok {
+			fr.vals[x] = v
+			return cur
+		}
 		// map lookup / string index with comma-ok: contents unmodelled
 		ex.note(ex.Abstr, "map-lookup")
 		fr.vals[x] = ex.freshFor("lookup", x.Type(), st)
@@ -728,4 +732,38 @@ func pow2MultipleNonLit(a, b *smt.Term) int {
 		return 0
 	}
 	return pow2Multiple(b)
+}
+
+// constMapLookup: a lookup in a package-level map that only the package initialiser fills is a pure
+// function of the key (uninterpreted: the table's contents are not interpreted).
+func (ex *Exec) constMapLookup(fr *Frame, x *ssa.Lookup) (Val, bool) {
+	ld, ok := x.X.(*ssa.UnOp)
+	if !ok {
+		return Val{}, false
+	}
+	g, ok := ld.X.(*ssa.Global)
+	if !ok || !ex.Prog.GlobalMapConst(g) {
+		return Val{}, false
+	}
+	mt := g.Type().(*types.Pointer).Elem().Underlying().(*types.Map)
+	key := ex.val(fr, x.Index)
+	if key.Tm == nil {
+		return Val{}, false
+	}
+	return ex.mapLookupTerm(g, mt, key.Tm, x.CommaOk, x.Type()), true
+}
+
+func (ex *Exec) mapLookupTerm(g *ssa.Global, mt *types.Map, key *smt.Term, commaOk bool, resT types.Type) Val {
+	c := ex.W.C
+	name := "uf_map_" + smt.Mangle(g.Pkg.Pkg.Name()+"_"+g.Name())
+	vs := ex.W.SortOf(mt.Elem())
+	ex.W.C.DeclareFun(name+"_val", []smt.Sort{key.Sort}, vs)
+	ex.W.C.DeclareFun(name+"_ok", []smt.Sort{key.Sort}, smt.Bool)
+	okT := c.App(name+"_ok", smt.Bool, key)
+	val := c.Ite(okT, c.App(name+"_val", vs, key), ex.W.zeroOfSort(vs))
+	ex.note(ex.Abstr, "const-map-lookup:"+g.Name())
+	if commaOk {
+		return Val{T: resT, Tup: []Val{{T: mt.Elem(), Tm: val}, {T: types.Typ[types.Bool], Tm: okT}}}
+	}
+	return Val{T: mt.Elem(), Tm: val}
 }
